@@ -639,12 +639,29 @@ fn run_model<R: HistRep>(prop: &str, m: HModel<R>, threads: usize, ctx: &mut Ctx
                         Some("partial_cmp disagrees with cmp".to_string())
                     } else if eq && hashes[i] != hashes[j] {
                         Some("equal digraphs have different hashes".to_string())
+                    } else if (a != b) == eq {
+                        Some("!= is not the negation of ==".to_string())
+                    } else if (a < b) != (ord == std::cmp::Ordering::Less) || (a <= b) != (ord != std::cmp::Ordering::Greater) || (a > b) != (ord == std::cmp::Ordering::Greater) || (a >= b) != (ord != std::cmp::Ordering::Less) {
+                        Some(format!("<, <=, >, >= disagree with cmp = {ord:?}"))
                     } else {
                         None
                     };
                     if let Some(b2) = bad {
                         mk_fail(ctx, format!("{}: {b2}", R::NAME), json!({"lhs": aa.arcs_json(), "rhs": ab.arcs_json(), "lhs_internal": format!("{a:?}"), "rhs_internal": format!("{b:?}")}));
                         break 'outer;
+                    }
+                    // Clone::clone_from into a value that held another digraph: the result equals
+                    // the source (every ordered pair for closures of ≤ 1100 states, a fixed
+                    // selection of partners per state above that)
+                    let n_items = items.len();
+                    if n_items <= 1100 || j == 0 || j + 1 == n_items || j + 1 == i || j == i + 1 || j == (i * 31 + 7) % n_items {
+                        out.pair_checks += 1;
+                        let mut t = (*a).clone();
+                        t.clone_from(b);
+                        if t != *b || hash(&t) != hashes[j] || t.cmp(b) != std::cmp::Ordering::Equal {
+                            mk_fail(ctx, format!("{}: x.clone_from(&y) leaves x different from y (==, hash or cmp)", R::NAME), json!({"x_before": aa.arcs_json(), "y": ab.arcs_json(), "x_after_internal": format!("{t:?}"), "y_internal": format!("{b:?}")}));
+                            break 'outer;
+                        }
                     }
                 }
             }
@@ -687,7 +704,14 @@ fn cross_pass<R: HistRep>(groups: &[Vec<(R, Abs)>], ctx: &mut Ctx) -> u64 {
                     } else if (a != b) == eq {
                         Some("!= is not the negation of ==".to_string())
                     } else {
-                        None
+                        // clone_from across orders: the target must take over the source's order too
+                        let mut t = a.clone();
+                        t.clone_from(b);
+                        if t != *b || t.cmp(b) != std::cmp::Ordering::Equal {
+                            Some(format!("x.clone_from(&y) leaves x different from y (x after: {t:?})"))
+                        } else {
+                            None
+                        }
                     };
                     if let Some(b2) = bad {
                         ctx.fail_count += 1;
@@ -866,7 +890,7 @@ pub fn c20(tier: &str, seed: u64) -> Check {
         "C20",
         tier,
         seed,
-        "explicit-state closure as in C01 (same models, same transition function) followed by a pass over the closed state set: (a) the number of distinct internal values (Debug rendering) equals the number of distinct abstract digraphs — one concrete value per abstract digraph whatever history (adds, removes, toggles, generators, operators, conversions, From iterators) reached it; (b) for EVERY ordered pair of closed states: == iff same (V,A,w), cmp == Equal iff ==, antisymmetry, partial_cmp = cmp, equal ⇒ equal DefaultHasher output; (c) every transition is applied to a clone and the original is compared before/after; (d) is_complete() on every closed state; (e) for every ordered pair of closed states taken from closures of DIFFERENT orders of one representation (orders 1..=4 and the AdjacencyMatrix windows): == is false, cmp is not Equal, antisymmetric, and agrees with partial_cmp. distinct_nontrivial as in C01.",
+        "explicit-state closure as in C01 (same models, same transition function) followed by a pass over the closed state set: (a) the number of distinct internal values (Debug rendering) equals the number of distinct abstract digraphs — one concrete value per abstract digraph whatever history (adds, removes, toggles, generators, operators, conversions, From iterators) reached it; (b) for EVERY ordered pair of closed states: == iff same (V,A,w), != its negation, cmp == Equal iff ==, antisymmetry, partial_cmp = cmp, the operators <, <=, >, >= agree with cmp, equal ⇒ equal DefaultHasher output; (c) every transition is applied to a clone and the original is compared before/after, and x.clone_from(&y) makes x ==/hash/cmp-equal to y for every ordered pair of closed states (a fixed selection of partners per state in closures of more than 1100 states) and for every cross-order pair; (d) is_complete() on every closed state; (e) for every ordered pair of closed states taken from closures of DIFFERENT orders of one representation (orders 1..=4 and the AdjacencyMatrix windows): == is false, cmp is not Equal, antisymmetric, and agrees with partial_cmp. distinct_nontrivial as in C01.",
         &["orders ≤ 3 (4 thorough) plus AdjacencyMatrix windows and the AdjacencyMap id pool", "Hash is compared through DefaultHasher only"],
         json!({"max_order": 4}),
     );
